@@ -157,7 +157,9 @@ func main() {
 			if *only != "" && !strings.Contains(canonName(m), *only) {
 				continue
 			}
+			asIfaceType = tn.Type()
 			r := verifyFunction(P, SS, G, m, con, "@as:"+parts[1])
+			asIfaceType = nil
 			results = append(results, r)
 			r.Obls = filterProps(r.Obls, *prop)
 			obls = append(obls, r.Obls...)
